@@ -18,6 +18,16 @@ CLAIMED["C01"] = dict(
     note="Trusted: Lean kernel; hand-written model checked (not proved) against joserfc by the differential; primitives (json, hmac, pyca verify) are parameters, no law assumed; cryptographic unforgeability is not claimed. Known finding D02b (unprotected b64 with no protected header) is stated as a theorem and listed in KNOWN_FINDINGS.json.",
     technique="Lean 4 proof (soundness relative to abstract primitives) + oracle-protocol differential + reference verifier",
     design="7/C01")
+CLAIMED["C05"] = dict(
+    text="Lean 4: complete characterisation of get_alg/get_enc/get_zip (succeeds iff the name is supported and in the caller's list, or in the recommended set when no list was given; an explicit empty list allows nothing; non-string names never resolve; the refusal of a string name is UnsupportedAlgorithmError); kernel-decided theorems over tables regenerated from /repo on every run (recommended sets = the property's sets, flags consistent with class lists, supported names, none is NoneAlgModel, default registries carry no list); gate theorems derived from the C01 soundness theorems (every returned/produced JWS used a supported allowed algorithm, for all primitives and inputs); none never verifies and signs to the empty signature. Tie: lookup differential over all names x allow-lists, end-to-end gating over JWS/JWE/JWT operations under algorithms= and registry=, call histories with table snapshots.",
+    note="Trusted: Lean kernel; extract.py (tables); hand-written model checked by differential. JWE gating is decided by the lookup theorem plus the implementation-side oracle until the JWE pipeline model covers it; 'no primitive invoked before the gate' is stated as 'nothing is returned' (contrapositive of soundness).",
+    technique="Lean 4 proof + kernel-decided generated tables + differential + gating oracle",
+    design="7/C05")
+CLAIMED["C15"] = dict(
+    text="Lean 4: complete characterisation c15_jws_check_iff — check_header (base and RFC 7797 registries, any caller-registered parameters, strict on/off) accepts a header object iff HeaderOK (required present, every registered parameter of its declared JSON type with booleans not integers, crit a list of strings naming present members, b64 accompanied by a crit listing it, no unregistered member under strict); validator_iff for every validator; kernel-decided theorems that the regenerated registries (JWS, JWE, RFC 7797, per-algorithm epk/apu/apv/p2s/p2c/iv/tag/skid) carry the RFC parameter tables. That the pipelines call it is part of the C01 soundness theorems (Accepted.header_ok). Tie: validator and check_header differential (JWS, RFC 7797, JWE incl. drafts) against joserfc and against an independent Python transcription of HeaderOK; end-to-end consume/produce cases with reference-signed tokens.",
+    note="Trusted: Lean kernel; extract.py; model checked by differential. The JWE check_header iff-theorem is pending the JWE pipeline model (its behaviour is covered by the differential and the HeaderOK oracle).",
+    technique="Lean 4 proof (iff characterisation) + kernel-decided generated tables + differential",
+    design="7/C15")
 PENDING = {}
 
 
